@@ -13,7 +13,7 @@ LEVELS = {
  "C11": "exploration",
  "C12": "proof",
  "C13": "proof",
- "C14": "proof",
+ "C14": "other",
  "C15": "proof",
  "C16": "proof",
  "C17": "other",
